@@ -834,3 +834,64 @@ func cmdSelftest(args []string) {
 		os.Exit(1)
 	}
 }
+
+// ---- replay of a saved counterexample against the native build ----
+
+func cmdReplay(args []string) {
+	fs := flag.NewFlagSet("replay", flag.ExitOnError)
+	repo := fs.String("repo", "/repo", "")
+	verif := fs.String("verif", "/verif", "")
+	fs.Parse(args)
+	if fs.NArg() != 1 {
+		fmt.Fprintln(os.Stderr, "usage: symgo replay <replay.json>")
+		os.Exit(2)
+	}
+	data, err := os.ReadFile(fs.Arg(0))
+	if err != nil {
+		fatal(err)
+	}
+	var rec struct {
+		Harness string         `json:"harness"`
+		Vector  []uint64       `json:"vector"`
+		Kinds   []string       `json:"kinds"`
+		Tag     string         `json:"tag"`
+		Kind    string         `json:"kind"`
+		Params  map[string]int `json:"params"`
+		Known   []string       `json:"known_open"`
+	}
+	if err := json.Unmarshal(data, &rec); err != nil {
+		fatal(err)
+	}
+	lp, err := loadProgram(*repo, filepath.Join(*verif, "harness"))
+	if err != nil {
+		fatal(err)
+	}
+	replayKnownOpen = rec.Known
+	dir, _ := os.MkdirTemp("", "symgo-replay-")
+	defer os.RemoveAll(dir)
+	v := &Violation{Harness: rec.Harness, Tag: rec.Tag, Kind: rec.Kind, Vector: rec.Vector, Kinds: rec.Kinds}
+	c := &replayCase{V: v, Params: rec.Params, File: filepath.Join(dir, "case-0.json")}
+	if err := runReplay(lp, *repo, *verif, dir, []*replayCase{c}); err != nil {
+		fatal(err)
+	}
+	if c.Outcome == nil || !c.Outcome.Ran {
+		fmt.Println("replay did not run")
+		os.Exit(2)
+	}
+	fmt.Printf("harness=%s inputs=%s\n", rec.Harness, vecString(v))
+	for _, l := range c.Outcome.Logs {
+		fmt.Println("  log:", l)
+	}
+	fmt.Printf("failed assertions: %q\nescaped panic: %q\n", c.Outcome.Fails, c.Outcome.Escaped)
+	for _, f := range c.Outcome.Fails {
+		if f == rec.Tag {
+			fmt.Println("REPRODUCED:", rec.Tag)
+			os.Exit(1)
+		}
+	}
+	if c.Outcome.Escaped != "" {
+		fmt.Println("REPRODUCED: panic escaped")
+		os.Exit(1)
+	}
+	fmt.Println("not reproduced on this tree")
+}
